@@ -1484,6 +1484,35 @@ class Pair(W):
             elif kind == "times-random":
                 R.call("gt_rand", self.e3)
                 R.call("gt_mul", a, a, self.e3)
+            elif kind == "times-minus-one":
+                R.call("fp12_neg", a, a)
+            elif kind == "times-order-3":
+                R.fpx_put(self.e3, [omega] + [0] * 11)
+                R.call("fp12_mul", a, a, self.e3)
+            elif kind == "times-non-member":
+                nonmember(self.e3)
+                R.call("fp12_mul", a, a, self.e3)
+
+        # elements of Fp12^* outside the order-n subgroup: -1, a primitive cube root of unity of Fp, and f^n for random f
+        pp_ = R.curve["p"]
+        omega = 1
+        gq = 2
+        while omega == 1 and pp_ % 3 == 1:
+            omega = pow(gq, (pp_ - 1) // 3, pp_)
+            gq += 1
+        nbn = R.bn(R.n)
+
+        def nonmember(out):
+            R.fpx_put(out, [rng.randrange(1, pp_) for _ in range(12)])
+            R.call("fp12_exp", out, out, nbn)
+
+        def coset(slot, target, with_c):
+            """g[slot] *= h and g[target] *= h^c (or h): the algebraic relation of the verifier still holds"""
+            nonmember(self.e3)
+            R.call("fp12_mul", g + slot * gs, g + slot * gs, self.e3)
+            if with_c:
+                R.call("fp12_exp", self.e3, self.e3, c)
+            R.call("fp12_mul", g + target * gs, g + target * gs, self.e3)
 
         def judge(fn, ret, honest):
             good = (not ret.caught)
@@ -1499,7 +1528,7 @@ class Pair(W):
                     ctx.check(ret.i == (1 if val_ok else 0), ctx.cur_key + "|return-value", {"ret": ret.i, "r-is-unity": unity})
         protos = [("pdpub", 3), ("lvpub", 2), ("pdprv", 4), ("lvprv", 3)]
         for name, ng in protos:
-            def run_once(t_kind=None, slot=0):
+            def run_once(t_kind=None, slot=0, rel=None, etamper=None):
                 P, Q, ex = self.rand_pq()
                 if name == "pdpub":
                     ok = self.ok(R.call("cp_pdpub_gen", c, r1, u1, u2, v2, e)) and self.ok(R.call("cp_pdpub_ask", v1, w2, P, Q, c, r1, u1, u2, v2)) \
@@ -1517,9 +1546,14 @@ class Pair(W):
                     return
                 if t_kind:
                     tamper(t_kind, slot)
+                if rel:
+                    coset(*rel)
+                if etamper is not None:
+                    ep_ = (e if name.endswith("pub") else ea) + etamper * gs
+                    R.call("fp12_neg", ep_, ep_)
                 R.call("fp12_zero", rr)         # sentinel: a verifier that leaves r untouched is seen
                 ret = R.call("cp_%s_ver" % name, rr, g, c, e if name.endswith("pub") else ea)
-                judge(name, ret, t_kind is None)
+                judge(name, ret, t_kind is None and rel is None and etamper is None)
             for _ in range(ctx.n(2, 10)):
                 self.case("cp_%s_ver|honest" % name, [cname], run_once)
             for slot in range(ng):
@@ -1527,6 +1561,21 @@ class Pair(W):
                     if not self.mine():
                         continue
                     self.case("cp_%s_ver|tampered-g%d,%s" % (name, slot, kind), [cname], lambda: run_once(kind, slot))
+                # factors outside GT: acceptance depends on the random challenge (h^c = 1), so several sessions each
+                for kind, sessions in (("times-minus-one", 6), ("times-order-3", 8 if omega != 1 else 0), ("times-non-member", 2)):
+                    for it in range(sessions if slot == 0 else min(sessions, 2)):
+                        if self.mine():
+                            self.case("cp_%s_ver|tampered-g%d,%s" % (name, slot, kind), [cname, it], lambda: run_once(kind, slot))
+            # g[slot] h, g[target] h^c (or h): the relation the verifier tests still holds, only membership tells
+            rels = {"pdpub": [(0, 1, True), (2, 1, False)], "lvpub": [(0, 1, True)],
+                    "pdprv": [(0, 3, True), (2, 3, True), (1, 3, False)], "lvprv": [(0, 2, True), (1, 2, False)]}[name]
+            for rel in rels:
+                for it in range(2):
+                    if self.mine():
+                        self.case("cp_%s_ver|coset-g%d-g%d" % (name, rel[0], rel[1]), [cname, it], lambda: run_once(None, 0, rel))
+            for ei in range(1 if name.endswith("pub") else 2):
+                if self.mine():
+                    self.case("cp_%s_ver|precomputed-e%d,times-minus-one" % (name, ei), [cname], lambda: run_once(None, 0, None, ei))
 
     # ------------------------------------------------------------------ pairing on shared inputs
     def mpc_pairing(self, cname):
